@@ -27,8 +27,14 @@ def features(shape, depth=0, acc=None):
     if k == "fault":
         acc.add("fault-" + shape[1])
     for i in cfgen.children_idx(shape):
+        if k != "seq":
+            acc.add(f"{k}[{i}]>{shape[i][0]}")        # which statement kind sits in which arm of which compound (guard per position)
         features(shape[i], depth + (0 if k == "seq" else 1), acc)
     return acc
+
+
+ARMS = {"if": [2], "ifelse": [2, 3], "elif": [3, 4, 5], "while": [2], "from": [5]}
+ARM_CHILDREN = ["plain", "return", "fault", "if", "ifelse", "elif", "while", "from", "break", "continue"]
 
 
 def evaluate(ast, files=None, minparen=False):
@@ -464,6 +470,11 @@ class C01(Check):
                   "while", "from", "fn~min", "ident", "form", "void", "voidlast", "meta-crlf", "meta-comments", "meta-spaced", "collide@nested", "collide@top", "anon@nested", "step", "step-expr", "step-call", "bounds-expr", "through", "module", "rec"]:
             if not stats["tags"].get(t):
                 errs.append(f"vacuity: construct {t} never explored")
+        for k, arms in ARMS.items():
+            for i in arms:
+                for ch in ARM_CHILDREN:
+                    if not stats["tags"].get(f"{k}[{i}]>{ch}"):
+                        errs.append(f"vacuity: no explored program has a `{ch}` directly in arm {i} of `{k}`")
         ok = stats["evaluations"] - stats["outcomes"].get("skipped-step-limit", 0)
         stats["extra_coverage"] = {
             "states": stats["counters"].get("states", 0), "transitions": stats["counters"].get("transitions", 0),
